@@ -3,6 +3,9 @@
 //	import "sync"            → import sync ".../pkg/zzverif/vsync"
 //	go f(a, b)               → { _f := f; _a0 := a; _a1 := b; sync.Go(func() { _f(_a0, _a1) }) }
 //	select { case <-x: A ... } → switch sync.Select(x, ...) { case 0: A ... }
+//	x.Err(), context.Cause(x) → sync.Obs(x.Err()), sync.Obs(context.Cause(x))
+//	                           (a read of cancellation state becomes a visible operation:
+//	                           the observed value goes into the goroutine's happens-before hash)
 //
 // Anything it does not understand (select with send / assignment / default) is a
 // hard error: the check then reports "cannot decide" (exit 3), never "held".
@@ -167,6 +170,36 @@ func main() {
 			rewriteBlock(fd.Body)
 		}
 	}
+	// 4. reads of cancellation state: every zero-argument call of a method named Err and every
+	// context.Cause(x) is wrapped in sync.Obs (generic identity function, so the type of the
+	// receiver does not matter; wrapping a call that is not a context's costs nothing)
+	made := map[*ast.CallExpr]bool{}
+	ast.Inspect(file, func(x ast.Node) bool {
+		call, ok := x.(*ast.CallExpr)
+		if !ok || made[call] {
+			return true
+		}
+		se, ok := call.Fun.(*ast.SelectorExpr)
+		if !ok {
+			return true
+		}
+		isErr := se.Sel.Name == "Err" && len(call.Args) == 0
+		isCause := false
+		if id, ok := se.X.(*ast.Ident); ok && id.Name == "context" && se.Sel.Name == "Cause" && len(call.Args) == 1 {
+			isCause = true
+		}
+		if !isErr && !isCause {
+			return true
+		}
+		orig := *call
+		made[&orig] = true
+		made[call] = true
+		call.Fun = sel("Obs")
+		call.Args = []ast.Expr{&orig}
+		call.Ellipsis = token.NoPos
+		counts["ctxread"]++
+		return true
+	})
 	var buf bytes.Buffer
 	// comments are dropped: positions of synthesized nodes would scatter them
 	file.Comments = nil
@@ -176,5 +209,5 @@ func main() {
 	if err := os.WriteFile(os.Args[2], buf.Bytes(), 0o644); err != nil {
 		fail("%v", err)
 	}
-	fmt.Printf("rewrite: %s: go=%d select=%d sync-import=%v\n", os.Args[1], counts["go"], counts["select"], found)
+	fmt.Printf("rewrite: %s: go=%d select=%d ctx-reads=%d sync-import=%v\n", os.Args[1], counts["go"], counts["select"], counts["ctxread"], found)
 }
